@@ -25,6 +25,7 @@ def main():
     for k, (u, r) in enumerate(zip(units, built)):
         cnt = collections.Counter()
         first = {}
+        minsz = {}
         for i in range(len(u["inputs"])):
             v = res.verdicts[(k, i)]
             cls = ("ok" if v == "ok" else "skip" if v == "A-invalid" else "differs" if v == "c-differs"
@@ -33,6 +34,9 @@ def main():
                    else "machine-trap" if v.startswith("A-trap") else "inconclusive")
             cnt[cls] += 1
             first.setdefault(cls, (i, v))
+            ctl0 = [c for c in u["inputs"][i]["a"]["ctl"] if isinstance(c, int) and not isinstance(c, bool) and c > 0]
+            if ctl0:
+                minsz[cls] = min(minsz.get(cls, 10 ** 9), max(ctl0))
         n_exec += cnt["ok"] + cnt["differs"] + cnt["c-abort"]
         n_ok += cnt["ok"]
         r["verdicts"] = dict(cnt)
@@ -40,8 +44,13 @@ def main():
             if cls in cnt:
                 i, v = first[cls]
                 inp = u["inputs"][i]
-                rep.violation({"instr": r["instr"], "class": cls} if r.get("variant") is None else
-                              {"instr": r["instr"], "class": cls, "strided_operand": r["variant"]},
+                sg = {"instr": r["instr"], "class": cls}
+                if r.get("variant") is not None:
+                    sg["strided_operand"] = r["variant"]
+                if cls in minsz:
+                    # smallest size/count argument among the failing executions (one vector = 16 / 8 lanes)
+                    sg["fact_min_failing_size"] = "<=16" if minsz[cls] <= 16 else "17..30" if minsz[cls] <= 30 else ">=31"
+                rep.violation(sg,
                               {"instr": r["instr"], "c_instr": r["c_instr"], "exo_body": r["body"], "wrapper": r["wrapper"],
                                "verdict": v, "input": inp["a"], "c_output": inp.get("out"), "counts": dict(cnt),
                                "msgs": r["msgs"]})
